@@ -140,12 +140,14 @@ def _resolve_helper(M, fn, call: ast.Call):
     if q is None or q not in M.funcs or q == fn.qual:
         return None
     h = M.funcs[q]
-    if h.mod != fn.mod:            # same module only: the refactorings in question are local
-        return None
+    if h.mod != fn.mod:
+        # another module only for a helper of a class in the caller's own hierarchy (a shared base-class helper)
+        if not (fn.cls and h.cls and h.cls in M.mro(fn.cls)):
+            return None
     return h
 
 
-def _bind(helper, call: ast.Call, pre: List[ast.stmt]) -> Optional[Dict[str, ast.AST]]:
+def _bind(helper, call: ast.Call, pre: List[ast.stmt], dead=None) -> Optional[Dict[str, ast.AST]]:
     """parameter -> expression; complex arguments are bound to fresh locals appended to `pre`"""
     a = helper.node.args
     params = [x.arg for x in a.posonlyargs + a.args]
@@ -181,9 +183,12 @@ def _bind(helper, call: ast.Call, pre: List[ast.stmt]) -> Optional[Dict[str, ast
                 return None
     assigned = {n.id for n in ast.walk(helper.node) if isinstance(n, ast.Name) and isinstance(n.ctx, ast.Store)}
     for p, v in vals.items():
-        simple = isinstance(v, (ast.Name, ast.Constant)) or (isinstance(v, ast.Attribute) and isinstance(v.value, ast.Name))
+        simple = isinstance(v, (ast.Name, ast.Constant)) or (isinstance(v, ast.Attribute) and isinstance(v.value, ast.Name)) or \
+            (isinstance(v, (ast.List, ast.Tuple)) and all(isinstance(x, ast.Constant) for x in v.elts))
         if simple and p not in assigned:
             mapping[p] = v
+        elif isinstance(v, ast.Name) and dead is not None and v.id in dead:
+            mapping[p] = v            # the helper re-binds its parameter; the caller's name is dead after the call: reuse it
         else:
             tmp = f"__{helper.node.name.strip('_')}_{p}_{next(_counter)}"
             pre.append(ast.copy_location(ast.Assign(targets=[ast.Name(id=tmp, ctx=ast.Store())], value=copy.deepcopy(v)), call))
@@ -250,7 +255,7 @@ def _inline_block(M, fn, stmts: List[ast.stmt], caller_locals: set, changed: Lis
         kind = _simple_helper(h.node) if h is not None else None
         if h is not None and kind == "tail":
             pre = []
-            mp = _bind(h, call, pre)
+            mp = _bind(h, call, pre, {n.id for n in ast.walk(st) if isinstance(n, ast.Name)} if isinstance(st, ast.Return) else None)
             if mp is not None:
                 own = _locals_of(h.node) - set(x.arg for x in h.node.args.posonlyargs + h.node.args.args + h.node.args.kwonlyargs)
                 ren = dict(mp)
@@ -274,7 +279,7 @@ def _inline_block(M, fn, stmts: List[ast.stmt], caller_locals: set, changed: Lis
                 continue
         if h is not None and kind in ("stmts", "expr"):
             pre: List[ast.stmt] = []
-            mp = _bind(h, call, pre)
+            mp = _bind(h, call, pre, {n.id for n in ast.walk(st) if isinstance(n, ast.Name)} if isinstance(st, ast.Return) else None)
             if mp is not None:
                 body, ret = _instantiate(h, mp, caller_locals)
                 changed.append(h.qual)
@@ -293,6 +298,9 @@ def _inline_block(M, fn, stmts: List[ast.stmt], caller_locals: set, changed: Lis
                 continue
         # expression-level helpers
         pre = []
+        dead_names = None
+        if isinstance(st, ast.Return):
+            dead_names = {n.id for n in ast.walk(st) if isinstance(n, ast.Name)}
         if isinstance(st, (ast.Expr, ast.Assign, ast.AugAssign, ast.AnnAssign, ast.Return)):
             # a straight-line helper called inside the expression of a simple statement: its body is hoisted before the statement
             # (only calls evaluated unconditionally: not under a lambda / comprehension / conditional expression / and-or)
@@ -313,7 +321,7 @@ def _inline_block(M, fn, stmts: List[ast.stmt], caller_locals: set, changed: Lis
                     continue
                 h2 = _resolve_helper(M, fn, c_)
                 if h2 is not None and _simple_helper(h2.node) == "stmts":
-                    mp2 = _bind(h2, c_, pre)
+                    mp2 = _bind(h2, c_, pre, dead_names)
                     if mp2 is None:
                         continue
                     body2, ret2 = _instantiate(h2, mp2, caller_locals)
@@ -341,7 +349,7 @@ def _inline_block(M, fn, stmts: List[ast.stmt], caller_locals: set, changed: Lis
 
 
 # ------------------------------------------------------------------ loops over literal tables, setattr / getattr
-def _literal_items(M, fn, it: ast.AST):
+def _literal_items(M, fn, it: ast.AST, top=None):
     """[(key node, value node)] or [value node] for an iterable that is a literal table, else None"""
     src = it
     mode = "values"
@@ -376,7 +384,7 @@ def _literal_items(M, fn, it: ast.AST):
                 node = st.value
         if node is None:
             # a local literal assigned once in the function
-            ds = [n for n in ast.walk(fn.node) if isinstance(n, ast.Assign) and len(n.targets) == 1 and isinstance(n.targets[0], ast.Name)
+            ds = [n for n in ast.walk(top if top is not None else fn.node) if isinstance(n, ast.Assign) and len(n.targets) == 1 and isinstance(n.targets[0], ast.Name)
                   and n.targets[0].id == src.id]
             node = ds[0].value if len(ds) == 1 else None
     if node is None:
@@ -418,6 +426,35 @@ class _AttrCalls(ast.NodeTransformer):
         return n
 
 
+def _fold_const_ifs(stmts: List[ast.stmt]) -> List[ast.stmt]:
+    """`if 'a' != 'b': X else: Y` -> X   (tests between two constants, as loop unrolling leaves them)"""
+    out = []
+    for st in stmts:
+        for fld in ("body", "orelse", "finalbody"):
+            if isinstance(getattr(st, fld, None), list) and not isinstance(st, (ast.FunctionDef, ast.AsyncFunctionDef, ast.ClassDef)):
+                setattr(st, fld, _fold_const_ifs(getattr(st, fld)))
+        if isinstance(st, ast.If) and isinstance(st.test, ast.Compare) and len(st.test.ops) == 1 and isinstance(st.test.left, ast.Constant) and \
+                isinstance(st.test.comparators[0], ast.Constant):
+            a, b, op = st.test.left.value, st.test.comparators[0].value, st.test.ops[0]
+            val = None
+            try:
+                if isinstance(op, ast.Eq):
+                    val = a == b
+                elif isinstance(op, ast.NotEq):
+                    val = a != b
+                elif isinstance(op, ast.In):
+                    val = a in b
+                elif isinstance(op, ast.NotIn):
+                    val = a not in b
+            except TypeError:
+                val = None
+            if val is not None:
+                out.extend(st.body if val else st.orelse)
+                continue
+        out.append(st)
+    return out
+
+
 def _unroll_block(M, fn, stmts: List[ast.stmt], changed: List[str], top=None) -> List[ast.stmt]:
     out = []
     for st in stmts:
@@ -425,7 +462,7 @@ def _unroll_block(M, fn, stmts: List[ast.stmt], changed: List[str], top=None) ->
             if hasattr(st, fld) and isinstance(getattr(st, fld), list) and not isinstance(st, (ast.FunctionDef, ast.AsyncFunctionDef, ast.ClassDef)):
                 setattr(st, fld, _unroll_block(M, fn, getattr(st, fld), changed, top))
         if isinstance(st, ast.For) and not st.orelse and not any(isinstance(x, (ast.Break, ast.Continue)) for x in ast.walk(st)):
-            items = _literal_items(M, fn, st.iter)
+            items = _literal_items(M, fn, st.iter, top)
             if items and len(st.body) <= 8 and len(items) * len(st.body) <= 48:
                 ok = True
                 unrolled = []
@@ -913,6 +950,7 @@ def normalise(M, fn, subst: bool = False, guards: bool = False, keep=(), comps: 
         node.body = _inline_block(M, fn, node.body, locs, changed, 0)
         node.body = _unroll_block(M, fn, node.body, changed, node)
         node.body = _expand_dispatch(M, fn, node, node.body, changed)
+        node.body = _fold_const_ifs(node.body)
         node = _AttrCalls().generic_visit(node) if True else node
         if not changed:
             break
